@@ -129,9 +129,28 @@ def _bind_target(t: ast.expr, v: ast.expr, m: dict[str, ast.expr]) -> bool:
     return False
 
 
+def _closed_lambda(e: ast.expr) -> bool:
+    """A lambda with plain positional parameters whose body reads nothing but its parameters and constants (and
+    builtins): it denotes the same function wherever it is written."""
+    if not isinstance(e, ast.Lambda):
+        return False
+    a = e.args
+    if a.vararg or a.kwarg or a.kwonlyargs or a.defaults or a.posonlyargs:
+        return False
+    params = {x.arg for x in a.args}
+    for n in ast.walk(e.body):
+        if isinstance(n, ast.Name) and n.id not in params and n.id not in PURE_BUILTINS | {'None', 'True', 'False', 'min', 'max', 'abs', 'round'}:
+            return False
+        if isinstance(n, (ast.Lambda, ast.NamedExpr, ast.Yield, ast.YieldFrom, ast.Await, ast.ListComp, ast.SetComp, ast.DictComp, ast.GeneratorExp)):
+            return False
+    return True
+
+
 def _simple(e: ast.expr) -> bool:
     if isinstance(e, ast.Constant):
         return True
+    if isinstance(e, ast.Lambda):
+        return _closed_lambda(e)
     if isinstance(e, ast.Call):
         return _nt_fields(e) is not None
     if isinstance(e, ast.Name):
@@ -274,6 +293,11 @@ class _Fold(ast.NodeTransformer):
 
     def visit_Call(self, n: ast.Call) -> ast.AST:  # noqa: N802
         self.generic_visit(n)
+        # beta reduction: a closed lambda applied on the spot to plain arguments is its body with the arguments in place
+        if isinstance(n.func, ast.Lambda) and _closed_lambda(n.func) and not n.keywords and len(n.args) == len(n.func.args.args) \
+                and all(isinstance(a_, (ast.Name, ast.Constant)) or (isinstance(a_, ast.Attribute) and _simple(a_)) for a_ in n.args):
+            m_ = {p_.arg: a_ for p_, a_ in zip(n.func.args.args, n.args)}
+            return ast.copy_location(_Sub(m_).visit(copy.deepcopy(n.func.body)), n)
         if isinstance(n.func, ast.Name) and n.func.id == 'getattr' and len(n.args) == 2 and not n.keywords \
                 and isinstance(n.args[1], ast.Constant) and isinstance(n.args[1].value, str) and n.args[1].value.isidentifier():
             return ast.copy_location(ast.Attribute(value=n.args[0], attr=n.args[1].value, ctx=ast.Load()), n)
